@@ -4,7 +4,10 @@
  * has a CHOSEN (small) size — with a read function that delivers a CHOSEN chunking of the document, so that refills, buffer
  * moves and doublings happen in the middle of tokens.
  *
- *   bufscan <dialect 1|2> <initial buffer size >= 2> <policy a|r<k>> <dochex> <cuts>
+ *   bufscan <dialect 1|2> <initial buffer size >= 2> <policy a|r<k>> <dochex> <cuts> [<ops>]
+ *     ops  : what the "parser" does to a token before CONSUME_TOKEN (the token is then printed a second time):
+ *            t  TRIM_TOKEN(scanner, 1); ttype = KEY   on every VALUE token longer than one unit (as parse_table on `:x`)
+ *            c  next_char -= 1; column -= 1; ttype = QVALUE / TVALUE   on every KEY / TKEY (as parse_list / parse_item)
  *     cuts : `-` one chunk | `*k` chunks of k units | `n1,n2,…` chunk lengths (the remainder is the last chunk)
  *     policy a : the error callback accepts everything;  rK : it returns the error code on its K-th invocation (0-based)
  *
@@ -84,7 +87,7 @@ static int accept_error(int code, size_t line, size_t column, const UChar *text,
 static cif_handler_tp no_handler;   /* all NULL: the scanner never consults it */
 
 /* one run; returns the malloc'd `toks=… rc=… errs=…` text, and (if bufout) the malloc'd `buf=` field */
-static char *run_once(const UChar *doc, size_t len, const char *cuts, int version, size_t bufsize, long reject_at, char **bufout) {
+static char *run_once(const UChar *doc, size_t len, const char *cuts, int version, size_t bufsize, long reject_at, int op_trim, int op_colon, char **bufout) {
     struct scanner_s scanner;
     struct src source;
     struct elog elog;
@@ -144,6 +147,25 @@ static char *run_once(const UChar *doc, size_t len, const char *cuts, int versio
                     (size_t) (scanner.tvalue_start - scanner.buffer));
             first = 0;
             if (scanner.ttype == END) break;
+            if ((op_trim && scanner.ttype == VALUE && TVALUE_LENGTH(&scanner) > 1)
+                    || (op_colon && (scanner.ttype == KEY || scanner.ttype == TKEY))) {
+                if (scanner.ttype == VALUE) {
+                    TRIM_TOKEN(&scanner, 1);
+                    scanner.ttype = KEY;
+                } else {
+                    enum token_type alt = (scanner.ttype == TKEY) ? TVALUE : QVALUE;
+                    scanner.next_char -= 1;
+                    POSN_INCCOLUMN(&scanner, -1);
+                    scanner.ttype = alt;
+                }
+                fprintf(rf, ",%d:", (int) scanner.ttype);
+                if (TVALUE_LENGTH(&scanner) == 0) fputc('-', rf);
+                for (i = 0; i < (size_t) TVALUE_LENGTH(&scanner); i++) fprintf(rf, "%04x", (unsigned) TVALUE_START(&scanner)[i]);
+                fprintf(rf, ":%lu:%u", (unsigned long) scanner.line, scanner.column);
+                fprintf(bf, ",%zu:%zu:%zu:%zu:%zu", (size_t) scanner.buffer_size, (size_t) scanner.buffer_limit,
+                        (size_t) (scanner.next_char - scanner.buffer), (size_t) (scanner.text_start - scanner.buffer),
+                        (size_t) (scanner.tvalue_start - scanner.buffer));
+            }
             CONSUME_TOKEN(&scanner);
         }
         if (first) fputc('-', rf);
@@ -176,7 +198,15 @@ static void handle(int argc, char **argv) {
     long bufsize, reject_at = -1;
     char *obs, *ref, *buf = NULL;
 
-    if (argc != 6 || !unhex(argv[4], &doc, &len) || doc == NULL) { OUT("bad-op"); free(doc); return; }
+    int op_trim = 0, op_colon = 0;
+
+    if ((argc != 6 && argc != 7) || !unhex(argv[4], &doc, &len) || doc == NULL) { OUT("bad-op"); free(doc); return; }
+    if (argc == 7) {
+        const char *o;
+        for (o = argv[6]; *o; o++) {
+            if (*o == 't') op_trim = 1; else if (*o == 'c') op_colon = 1; else { OUT("bad-op"); free(doc); return; }
+        }
+    }
     version = atoi(argv[1]);
     bufsize = strtol(argv[2], NULL, 10);
     if ((version != 1 && version != 2) || bufsize < 2 || bufsize > 100000000L) { OUT("bad-op"); free(doc); return; }
@@ -190,8 +220,8 @@ static void handle(int argc, char **argv) {
 
     norm = (UChar *) malloc((len + 1) * sizeof(UChar));
     nlen = normalize_eol(doc, len, norm);
-    obs = run_once(doc, len, argv[5], version, (size_t) bufsize, reject_at, &buf);
-    ref = run_once(norm, nlen, "-", version, nlen + 2 * BUF_MIN_FILL + 2, reject_at, NULL);
+    obs = run_once(doc, len, argv[5], version, (size_t) bufsize, reject_at, op_trim, op_colon, &buf);
+    ref = run_once(norm, nlen, "-", version, nlen + 2 * BUF_MIN_FILL + 2, reject_at, op_trim, op_colon, NULL);
     if (!obs || !ref) {
         OUT("bad-op");
     } else {
